@@ -368,7 +368,7 @@ impl Check for C15 {
     type Case = Case;
     const ID: &'static str = "C15";
     fn runs(t: Tier) -> u64 {
-        t.pick(4_000, 300_000)
+        t.pick(10_000, 400_000)
     }
     fn generate(rng: &mut Rng, tier: Tier, _idx: u64) -> Case {
         gen_case(rng, tier)
